@@ -1,14 +1,18 @@
 (* C09 - printing then parsing returns the same term, atom or clause.
    Property theorems only; the proofs are in Serde/{Escape,Lexer,Parse,ParseTok,ParseConst,
-   ParseAtom,ParseToy}Proofs.v.
+   ParseAtom,ParseToy,Clause,ClauseParse,ClauseRound,ClauseFinal}Proofs.v.
    Models: Serde/Escape.v (ast/serde.go), Serde/Lexer.v (the lexer rules of
    parse/gen/Mangle.g4), Serde/Parse.v (rule `term` with the visitors of
    parse/parse.go and the constructor cases of functional.EvalApplyFn),
-   Term/Print.v (Constant.String, owned by C08). Bytes are integers 0..255. *)
+   Term/Print.v (Constant.String, owned by C08), Serde/Clause.v (Clause.String, Transform.String
+   and the String methods of the premises), Serde/ClauseParse.v (rules `clause`, `clauseBody`,
+   `literalOrFml`, `transform`, `letStmt` with their visitors). Bytes are integers 0..255. *)
 From Coq Require Import List ZArith Bool String.
 From MV Require Import Serde.Escape Serde.EscapeProofs Serde.Lexer Serde.LexerProofs Serde.Parse Serde.ParseProofs.
 From MV Require Import Serde.ParseTokProofs Serde.ParseConstProofs Serde.ParseAtomProofs Serde.ParseToyProofs.
 From MV Require Import Term.Expr Term.Atom Term.AtomPrintProofs Term.PrintInjProofs.
+From MV Require Import Serde.Clause Serde.ClauseParse Serde.ClauseProofs Serde.ClauseParseProofs Serde.ClauseRoundProofs
+  Serde.ClauseFinalProofs.
 Import ListNotations.
 Open Scope Z_scope.
 
@@ -214,14 +218,77 @@ Proof.
 Qed.
 
 (* ---- the clause level ----------------------------------------------------------
-   Not proved: parse_print_clause (Clause.String then parse.Clause). The clause level -
-   negated atoms, (in)equalities, comparisons, transforms, temporal annotations - has no
-   Coq model (Serde/Parse.v stops at rule `term`); the missing pieces are a model of
-   Clause.String / the rules `clause`, `literalOrFml`, `temporalAnnotation`, `transform`
-   with their visitors, and on top of it the lemma
-     parse_clause fuel (print_clause cl ++ rest) = Some (cl', rest) /\ clause_denotes cl cl'.
-   The clause round trip is covered on every run by the Go round trip (parse.Clause /
-   parse.Unit on generated clauses, compared field by field). *)
+   Clause.String of a clause (Serde/Clause.v: head atom; body of atoms, negated atoms,
+   equalities, inequalities - the built-in comparisons are atoms :lt :le :gt :ge for the printer;
+   transforms `|> do f(..), let X = f(..) |> let ...` with any number of stages, fix N50; the
+   " ." after a trailing name constant, fix N53), then parse.Clause (Serde/ClauseParse.v).
+   Base terms are constants of the domain of parse_print_const, variables ([var_lex_valid]) and
+   function applications fn:name(args) at any nesting depth.
+   Domain [clause_ok] (Serde/ClauseRoundProofs.v): predicate symbols are one NAME token that does not
+   start with "fn:" ([name_lex_valid]: ':'? 'a'..'z' ( NAME_CHAR | '.' NAME_CHAR )*, without the
+   colon not a keyword - so the printed comparison atoms :lt :le :gt :ge are inside), function
+   symbols one that does; a clause with Premises = nil has no transform, one with premises has
+   at least one; every transform stage has at least one statement and `do` only as its first;
+   the variable of a let-statement is a VARIABLE token.
+   The parser returns a clause that denotes the printed one ([clause_denotes]): same symbols,
+   same shape, every variable itself, every constant a constructor expression that evaluates to it.
+   What may follow the final '.': nothing, or a character that is no NAME_CHAR.
+   Fuel: that of parse_clause_text (what the correspondence check runs), 2 * length + 2, or more.
+
+   _partial - excluded from the proof (inside the model and the correspondence check):
+     * a body WITHOUT transform whose last premise is an equality / inequality with a COMPOUND
+       constant (pair, non-empty list / map / struct) on the right, `X = [1, 2].` ([end_ok] /
+       [last_end_ok] inside [clause_ok]): parse_print_const carries C08's follow condition, which
+       the final '.' does not meet; variables, names (" ."), numbers, floats, strings, byte
+       strings, times, durations, empty shapes and function applications in that place are proved;
+   outside the model: temporal annotations and operators (HeadTime, TemporalLiteral), the long
+   arrow. The full statement is this one with [last_end_ok] dropped from [clause_ok]. *)
+Theorem parse_print_clause_partial :
+  forall (parse_float parse_time parse_dur : list Z -> option Z) (fmt_float fmt_time fmt_dur : Z -> list Z),
+  (forall b, float_special b = false -> parse_float (format_float64 fmt_float b) = Some b) ->
+  (forall b, float_special b = false ->
+     exists sign ip fp, format_float64 fmt_float b = sign ++ ip ++ 46 :: fp /\
+       (sign = [] \/ sign = [45]) /\ ip <> [] /\ fp <> [] /\
+       forallb is_digit ip = true /\ forallb is_digit fp = true) ->
+  (forall n, int64_ok n = true -> ~ In 34 (fmt_time n) /\ ~ In 92 (fmt_time n) /\ ~ In 13 (fmt_time n)) ->
+  (forall n, int64_ok n = true -> ~ In 34 (fmt_dur n) /\ ~ In 92 (fmt_dur n) /\ ~ In 13 (fmt_dur n)) ->
+  (forall n, int64_ok n = true -> parse_time (fmt_time n) = Some n) ->
+  (forall n, int64_ok n = true -> parse_dur (fmt_dur n) = Some n) ->
+  forall (c : clause) (rest : list Z) (fuel : nat),
+  clause_ok c = true ->
+  match rest with [] => True | x :: _ => lex_name_char x = false end ->
+  (fuel_for (print_clause fmt_float fmt_time fmt_dur c ++ rest) <= fuel)%nat ->
+  exists q, parse_clause parse_float fuel (print_clause fmt_float fmt_time fmt_dur c ++ rest) = ROk q rest
+            /\ clause_denotes (eval parse_time parse_dur) c q.
+Proof. exact parse_print_clause_lemma. Qed.
+Print Assumptions parse_print_clause_partial.
+
+(* the domain contains: negation, a comparison atom, nested function applications, a compound
+   constant, an inequality that ends the body with a name constant (N53), one that ends it with a
+   variable / a number, a three-stage transform (N50), a fact *)
+Example parse_print_clause_nonvacuous :
+  let c1 := Clause (CAtom (bs "p") [BVar (bs "X"); BConst (build (EList [ENum (-1); EStr (bs "a.b")]))])
+              (Some [LAtom (CAtom (bs "q.r") [BVar (bs "X"); BConst (mk_number 3)]); LNeg (CAtom (bs "r") [BVar (bs "_")]);
+                     LAtom (CAtom (bs ":lt") [BVar (bs "X"); BConst (mk_number 7)]);
+                     LEq (BVar (bs "Y")) (BApp (bs "fn:plus") [BVar (bs "X"); BApp (bs "fn:f") []]);
+                     LIneq (BVar (bs "X")) (BConst (mk_name (bs "/a")))]) [] in
+  let c2 := Clause (CAtom (bs "p") [BVar (bs "X")])
+              (Some [LAtom (CAtom (bs "q") [BVar (bs "X")]); LEq (BVar (bs "Z")) (BVar (bs "X"))])
+              [[TStmt None (bs "fn:group_by") [BVar (bs "X")]; TStmt (Some (bs "Y")) (bs "fn:sum") [BVar (bs "Z")]];
+               [TStmt (Some (bs "W")) (bs "fn:plus") [BVar (bs "Y"); BConst (mk_number 1)]];
+               [TStmt None (bs "fn:f") []]] in
+  clause_ok c1 = true /\ clause_ok c2 = true /\ clause_ok (Clause (CAtom (bs "p") []) None []) = true /\
+  clause_ok (Clause (CAtom (bs "p") [BVar (bs "X")]) (Some [LEq (BVar (bs "X")) (BVar (bs "Y"))]) []) = true /\
+  clause_ok (Clause (CAtom (bs "p") [BVar (bs "X")]) (Some [LIneq (BVar (bs "X")) (BConst (mk_number (-5)))]) []) = true /\
+  match parse_clause_text toy_parse_float (print_clause toy_float print_number print_number c1) with
+  | ROk q [] => List.length (match pc_prem q with Some l => l | None => [] end) = 5%nat
+  | _ => False
+  end /\
+  match parse_clause_text toy_parse_float (print_clause toy_float print_number print_number c2) with
+  | ROk q [] => List.length (pc_trans q) = 3%nat
+  | _ => False
+  end.
+Proof. cbv zeta. repeat split; vm_compute; reflexivity. Qed.
 
 (* ---- what failed before the fixes ------------------------------------------- *)
 (* F5: Escape before the fix wrote a carriage return as it is; Unescape reads it as a newline *)
@@ -274,3 +341,37 @@ Theorem keyword_variable_refuted :
     (print_atom (fun _ => []) (fun _ => []) (fun _ => []) (new_atom (bs "p") [TVar (bs "Use")])) = PErr.
 Proof. split; [vm_compute; reflexivity|]. split; vm_compute; reflexivity. Qed.
 Print Assumptions keyword_variable_refuted.
+
+(* N50: Transform.String before the fix printed the first stage only: the text of a clause with
+   a chained transform parses - to a clause with one stage *)
+Theorem transform_chain_refuted :
+  let c := Clause (CAtom (bs "p") [BVar (bs "X")]) (Some [LAtom (CAtom (bs "q") [BVar (bs "X")])])
+             [[TStmt None (bs "fn:group_by") [BVar (bs "X")]; TStmt (Some (bs "Y")) (bs "fn:sum") [BVar (bs "X")]];
+              [TStmt (Some (bs "Z")) (bs "fn:plus") [BVar (bs "Y"); BConst (mk_number 1)]]] in
+  clause_ok c = true /\ List.length (cl_trans c) = 2%nat /\
+  match parse_clause_text (fun _ => None)
+          (print_clause_gen (fun _ => []) (fun _ => []) (fun _ => []) false true c) with
+  | ROk q [] => List.length (pc_trans q) = 1%nat
+  | _ => False
+  end /\
+  match parse_clause_text (fun _ => None) (print_clause (fun _ => []) (fun _ => []) (fun _ => []) c) with
+  | ROk q [] => List.length (pc_trans q) = 2%nat
+  | _ => False
+  end.
+Proof. cbv zeta. repeat split; vm_compute; reflexivity. Qed.
+Print Assumptions transform_chain_refuted.
+
+(* N53: Clause.String before the fix wrote "X = /a." - the lexer takes the '.' into the name
+   constant and the clause does not parse; with the blank it does *)
+Theorem trailing_name_refuted :
+  let c := Clause (CAtom (bs "p") [BVar (bs "X")])
+             (Some [LAtom (CAtom (bs "q") [BVar (bs "X")]); LEq (BVar (bs "X")) (BConst (mk_name (bs "/a")))]) [] in
+  clause_ok c = true /\
+  parse_clause_text (fun _ => None)
+    (print_clause_gen (fun _ => []) (fun _ => []) (fun _ => []) true false c) = RErr /\
+  match parse_clause_text (fun _ => None) (print_clause (fun _ => []) (fun _ => []) (fun _ => []) c) with
+  | ROk q [] => True
+  | _ => False
+  end.
+Proof. cbv zeta. split; [vm_compute; reflexivity|]. split; [vm_compute; reflexivity|]. vm_compute. exact I. Qed.
+Print Assumptions trailing_name_refuted.
